@@ -705,6 +705,52 @@ pub fn tear_unit(seed: u64, ctx: &mut Ctx, ctl: &mut UnitCtl) {
 }
 
 
+/// Torn rewrites of the header's range doubles: the first shape lies at huge (or infinite)
+/// coordinates, the second near +-1.5, with a finalize after each, so that every byte cut inside a
+/// rewritten 8-byte range mixes the bytes of two very different doubles (some mixtures are NaN, some
+/// infinite, some subnormal). unit -> (type, huge value).
+pub fn range_tear_unit(unit: u64, ctx: &mut Ctx, ctl: &mut UnitCtl) {
+    let ty = [1, 11, 23, 8, 15][(unit % 5) as usize];
+    let huge = [1e305f64, f64::INFINITY, -1e305, f64::NEG_INFINITY, f64::MAX, -f64::MAX][((unit / 5) % 6) as usize];
+    let small = [1.99f64, -1.5, 1.0, 1.25][((unit / 30) % 4) as usize];
+    let npts = if is_point(ty) { 1 } else if is_polygon(ty) { 4 } else { 2 };
+    let mk_shape = |v: f64, salt: f64| -> ShapeSpec {
+        if is_polygon(ty) {
+            // a closed ring around (v, v): finite values only make a ring
+            let b = if v.is_finite() { v } else { f64::MAX * v.signum() };
+            let pts = vec![[b, b], [b, b + salt], [b + salt, b], [b, b]].into_iter().map(|q| [q[0].to_bits(), q[1].to_bits(), v.to_bits(), v.to_bits()]).collect();
+            return ShapeSpec { ty, parts: vec![Part { kind: 0, pts }], ctor: 0 };
+        }
+        let pts = (0..npts).map(|j| [v.to_bits(), (v + salt * j as f64).to_bits(), if has_z(ty) { v.to_bits() } else { 0 }, if has_m(ty) { v.to_bits() } else { 0 }]).collect();
+        ShapeSpec { ty, parts: vec![Part { kind: -1, pts }], ctor: 0 }
+    };
+    let w = WProg { shapes: vec![mk_shape(huge, 0.0), mk_shape(small, 0.25)], others: vec![], calls: vec![WCall::W(0), WCall::Fin, WCall::W(1), WCall::Fin], ending: Ending::Drop, with_shx: true, stack: StackCfg::Direct };
+    let plan = Plan::default();
+    let Some(p) = prepare(&w, &plan) else {
+        // polygons at the largest finite values may be refused by the constructors: nothing to tear
+        ctx.stats.reach("range-tear-workload-not-runnable");
+        return;
+    };
+    let wb = p.world.borrow();
+    ctx.stats.steps += wb.log.len() as u64;
+    let imgs = images_where(&wb, SHP, &p.run.marks, &|region| region.starts_with("header-rewrite"));
+    let shx_full = wb.data(SHX).to_vec();
+    let n_shx = wb.events_of(SHX).len();
+    drop(wb);
+    let mk = |a: &Img| Scenario::Crash(CrashScn { w: w.clone(), wplan: plan.clone(), n_shp: a.n_full, cut_shp: a.cut, n_shx, cut_shx: 0, rbuf: 0 });
+    for a in &imgs {
+        if !ctl.before_case(|| mk(a)) {
+            continue;
+        }
+        ctx.stats.evaluations += 1;
+        ctx.stats.reach("range-tear");
+        ctx.stats.fault(if a.cut > 0 { "crash:header-rewrite-mid-write" } else { "crash:header-rewrite-op-boundary" }, 1);
+        judge(ctx, &p, &a.data, a.n_full, &shx_full, 0, true, true);
+        ctx.stats.distinct.insert(a.hash ^ unit);
+        ctl.after_case(ctx, || mk(a));
+    }
+}
+
 // ---------------------------------------------------------------------------------------------
 // A crash inside one very large record (tens of MiB: a writer may treat such records specially)
 // while the index is complete. The workload is procedural so that the scenario stays small.
